@@ -87,7 +87,7 @@ def _exec_small(args):
             out.append(x_store.observe(fx, np, fmt, modes, bv, c, r, props, True))
     # 3b. complex inputs: each component quantized on its own (boundary values; real part ascending, imaginary descending)
     if pid == 'C01' and (rot % 2 == 0 or tier == 'thorough'):
-        for j, r_ in enumerate(['ctor', 'call', 'set_val', 'setitem'] if tier == 'thorough' else [['ctor', 'call', 'set_val', 'setitem'][rot % 4]]):
+        for j, r_ in enumerate(['ctor', 'call', 'set_val'] if tier == 'thorough' else [['ctor', 'call', 'set_val'][rot % 3]]):    # (not x[i] = complex: a real array cannot take it)
             out += x_store.observe_complex(fx, np, fmt, modes, bvals, bvals[::-1], r_, props, scalar=True)
         out += x_store.observe_complex(fx, np, fmt, modes, bvals, bvals[::-1], ['ctor', 'call', 'set_val'][rot % 3], props, scalar=False)
     # 3c. C03 register clause: same-format wrap-mode + - * behaves like arithmetic modulo 2^n_word
